@@ -466,6 +466,9 @@ def _bcast(comm, obj, root):
     master = comm.Get_rank() == root
     dtype = comm.bcast(type(obj), root=root)
     if dtype is np.ndarray:
+        if master:
+            shp_orig = obj.shape
+            obj = np.ascontiguousarray(obj).reshape(shp_orig)
         shape, dtype = (obj.shape, obj.dtype) if master else (None, None)
         shape, dtype = comm.bcast((shape, dtype), root=root)
         data = obj if master else np.empty(shape, dtype)
